@@ -31,6 +31,10 @@ CLAIMED = {
   text="Deductive proof of the call shapes of the two real async cache bodies on every path: on a miss exactly one loop.create_task(function(...)) is started and stored under the key before the first suspension (atomic segment), every caller awaits shield(<the cached task>) (the entry's task on a hit, the new task on a miss) and returns/raises that task's outcome, a cancelled waiter raises CancelledError, and no path calls cancel() on a cached task (expiry/eviction only drop the entry). Interference at the await is a havoc of the cache up to its invariant.",
   note="Trusted: T-SHIELD, T-FUT, S4: the schedule quantifier of the statement is carried by these (assumed); what is proved is that the real code has the shapes from which the statement follows under them.",
   ref="DESIGN.md 4 (C13)"),
+ "C20": dict(
+  text="Deductive proof, function by function, on types/missing.py and the Missing validator: the metaclass call returns the cached instance and never creates a second one (two-path VC under the invariant `_instance in {None, singleton}`), __eq__ is identity with MISSING for every value, __bool__ is False, the three attribute hooks raise AttributeError on every path, is_missing/not_missing/when_missing and the validator decide by identity for every value; reconstruction (copy, deepcopy, pickle 0-5) is decided by walking CPython's copy/pickle dispatch over the hooks the class defines in the current tree and executing those hooks symbolically.",
+  note="Trusted: T-COPY (transcription of CPython 3.12 copy.py/pickle.py/copyreg.py dispatch; validated natively by the replay harness on every violation), S8 dunder lookup on the type, type.__call__ creates a new instance. Containers/states holding MISSING rely on T-COPY mapping deepcopy/pickle over elements.",
+  ref="DESIGN.md 4 (C20)"),
 }
 
 ALL = [f"C{i:02d}" for i in range(1, 21)]
